@@ -14,7 +14,13 @@ RULE = ("G-tree: (1) every (current, relative) pair over the component alphabet 
         "diamonds, cycles, self-inclusion, missing files, escaping paths, two roots, #once in random subsets, decorated "
         "spellings) assembled on the mock file server with #d8 markers; (3) incbin/incbinstr/inchexstr with every "
         "(start, size) in 0..len+2 plus machine-word extremes on files of 0..6 units; (4) the real customasm binary "
-        "in a scratch directory with sentinel files outside it.  non-trivial = distinct path pairs containing '..', "
+        "in a scratch directory with sentinel files outside it; (5) call sites: instruction sets with 1-2 level sub-rule "
+        "parameters, asm blocks and rule bodies defined in an included file in another directory, user functions in a third, "
+        "one incbin/incbinstr/inchexstr call per program written as a direct operand, a nested-sub-rule operand, in an "
+        "included source file, in a rule body, literally in / substituted into an asm block, in a #fn body (called from the "
+        "main file, as an operand, from a rule body) or as a #fn argument, x 6 directory layouts x 10-12 path spellings, "
+        "same-named data files of different content in every directory; oracle = the path is resolved relative to the file "
+        "that textually contains the call (implementation vs specification only; rule matching is not in the C14 model).  non-trivial = distinct path pairs containing '..', "
         "'.', an empty component, a backslash, a leading separator or <std>; distinct graphs with >= 1 include; "
         "distinct (content length, start, size) triples within 2 of a boundary")
 
@@ -29,6 +35,8 @@ CLASS_TEXT = {
     "dot_component_in_current": "a `.` (or the leading empty) component of the containing file's path is what a later `..` pops",
     "std_prefix_real_directory": "`<std>/x` falls through to a real directory named `<std>`",
     "include_inside_if_block": "`#include` nested in an `#if` block is silently ignored",
+    "incfn_in_fn_body_uses_caller_file": "an inclusion function called in a `#fn` body is resolved relative to the CALLER's file",
+    "incfn_operand_through_asm_block": "an operand substituted into an `asm { }` block is resolved relative to the rule's file",
 }
 
 
@@ -379,6 +387,80 @@ def stream_incfns(chk, fnd, bins, model):
     chk.cov["disagreements_checked"] += ndis
 
 
+# --------------------------------------------------------------------------------------------- stream 5: call sites
+def stream_callsites(chk, fnd, bins):
+    rng = chk.rng.fork("callsites")
+    quick = chk.tier == "quick"
+    cases = []
+    for li, layout in enumerate(G.CS_LAYOUTS):
+        for kind in G.CS_KINDS:
+            for fi, func in enumerate(G.CS_FUNCS):
+                _, _, containing, _, _, _ = G.cs_program(layout, kind, func, "data")
+                paths = G.cs_paths(rng, containing)
+                for pi, rp in enumerate(paths):
+                    if quick and pi >= 2 and (pi + fi + li) % 3 != 0:
+                        continue
+                    cases.append((layout, kind, func, rp))
+    lines, meta = [], []
+    for (layout, kind, func, rp) in cases:
+        files, root, containing, caller, rules, frame = G.cs_program(layout, kind, func, rp)
+        lines.append("G\t%s\t%s" % (vlib.hx(root), ";".join("%s=%s" % (vlib.hx(k), (v if isinstance(v, bytes) else v.encode()).hex())
+                                                             for k, v in files.items())))
+        meta.append((files, root, containing, caller, rules, frame))
+    dbg = vlib.run_lines([bins["debug"] + "/nav"], lines)
+    rel_ = vlib.run_lines([bins["release"] + "/nav"], lines)
+    dist = {"ok": 0, "err": 0, "expected_error": 0}
+    for (layout, kind, func, rp), (files, root, containing, caller, rules, frame), line, impl, implr in zip(cases, meta, lines, dbg, rel_):
+        want = G.cs_expected(files, func, containing, rp)
+        chk.nontriv(("c", layout[0], kind, func, rp))
+        ext = G.CS_DATA[func].split(".")[1]
+        rep = {"kind": "callsite", "site": kind, "function": func, "path": rp + "." + ext, "root": root,
+               "call_written_in": containing, "rule_file": rules,
+               "files": {k: (v.decode("latin-1") if isinstance(v, bytes) else v) for k, v in files.items()},
+               "impl": impl, "expected": None if want is None else "%02x" % want,
+               "data_values": {(d or ".") + "/data.*": "%02x" % G.cs_value(d) for d in G.CS_DIRS}}
+        if impl != implr:
+            fnd.add("?profile", "debug and release disagree on a call-site program: %s vs %s" % (impl, implr), rep)
+            continue
+        f = impl.split("\t")
+        if f[0] == "OK":
+            ids = bits_to_ids(f[1] if len(f) > 1 else "")
+            pre, post = frame
+            if ids[:len(pre)] == pre and ids[len(pre) + 1:] == post and len(ids) == len(pre) + 1 + len(post):
+                got = ids[len(pre)]
+            else:
+                fnd.add("?callsite", "call-site program gave unexpected output %s" % ids, rep)
+                continue
+        elif f[0] == "ERR":
+            got = None
+        else:
+            fnd.add("?crash", "call-site program crashed: %s" % impl, rep)
+            continue
+        dist["ok" if got is not None else "err"] += 1
+        dist["expected_error"] += want is None
+        if got == want:
+            continue
+        # which file's directory did the implementation use instead?
+        used = [x for x in sorted(set([root, caller, rules, containing])) if G.cs_expected(files, func, x, rp) == got]
+        cls = None
+        if kind.startswith("fn_body") and caller in used:
+            cls = "incfn_in_fn_body_uses_caller_file"
+        elif (kind.startswith("asm_param") and rules in used and
+              rules.rsplit("/", 1)[:-1] != containing.rsplit("/", 1)[:-1] and got == G.cs_expected(files, func, rules, rp)):
+            # exactly F75: the call text reaches evaluation through a {param} substitution inside an asm block of a
+            # rule that lives in another directory, and the value is the one relative to that rule's file
+            cls = "incfn_operand_through_asm_block"
+        rep["resolved_as_if_written_in"] = used
+        fnd.add(cls or "?callsite", "%s(\"%s.%s\") written in %s (%s; rules in %s): got %s, relative to the containing file it is %s%s" % (
+            func, rp, ext, containing, kind, rules, "an error" if got is None else "%02x" % got,
+            "an error" if want is None else "%02x" % want, ("; as if written in %s" % "/".join(used)) if used else ""), rep,
+            prio=0 if (got is not None and want is not None) else 1)
+    chk.count("callsites", len(cases), **dist)
+    chk.cov["traces_validated_against_impl"] += len(cases)
+    for i in (0, len(cases) // 2):
+        chk.sample({"callsite": cases[i][1], "function": cases[i][2], "path": cases[i][3], "root": meta[i][1], "impl": dbg[i]})
+
+
 # --------------------------------------------------------------------------------------------- stream 4: real file system
 SENT_TEXT = "SENTINEL-C14-OUTSIDE"
 FS_ALPHABET = ["d", "f.asm", ".", "..", "", "<std>"]
@@ -575,6 +657,7 @@ def run(chk):
     stream_paths(chk, fnd, bins, model)
     stream_graphs(chk, fnd, bins, model)
     stream_incfns(chk, fnd, bins, model)
+    stream_callsites(chk, fnd, bins)
     stream_realfs(chk, fnd, model)
     fnd.flush()
 
@@ -595,6 +678,18 @@ def replay(chk, rep):
         for k, v in r["files"].items():
             print("--- %s\n%s" % (k, v))
         print("roots: %s\nimplementation now: %s\nrecorded: %s\nreference: %s" % (r["roots"], out, r.get("impl"), r.get("reference")))
+    elif kind == "callsite":
+        line = "G\t%s\t%s" % (vlib.hx(r["root"]), ";".join("%s=%s" % (vlib.hx(k), v.encode("latin-1").hex()) for k, v in r["files"].items()))
+        out = vlib.run_lines([nav], [line], shards=1)[0]
+        for k, v in sorted(r["files"].items()):
+            if k.endswith(".asm"):
+                print("--- %s\n%s" % (k, v))
+        print("data files: %s (same-named data.bin / data.txt / data.hex in every directory)" % r["data_values"])
+        f = out.split("\t")
+        print("root %s; %s(\"%s\") is written in %s\nimplementation now: %s\nrecorded: %s\nexpected value of the call (relative to the containing file): %s" % (
+            r["root"], r["function"], r["path"], r["call_written_in"],
+            ("OK bytes " + " ".join("%02x" % b for b in bits_to_ids(f[1] if len(f) > 1 else ""))) if f[0] == "OK" else out,
+            r.get("impl"), r.get("expected") or "an error"))
     elif kind == "incfn":
         a = [int(x) for x in r["args"]]
         prog = '#d %s("f.dat"%s)\n#d8 0xa5\n' % (r["function"], "".join(", %d" % x for x in a))
